@@ -411,8 +411,13 @@ def application_table(w):
                               # the captured environment is a frame that binds nothing (yet) below one that does — the body of a `begin` /
                               # `let ()` / clause, or a body whose internal definitions are still being evaluated — and one that binds
                               # something: the new frame hangs on the captured frame itself, whatever that frame holds at the moment
-                              ("thunk@empty-child", [], None), ("fixed1@empty-child", ["a"], None), ("fixed1@binding-child", ["a"], None)):
-        for k in (range(0, 4) if kind in ("fixed2", "rest", "thunk") else (2,) if "+" in kind else (len(fixed),) if "@" in kind else range(0, 6)):
+                              ("thunk@empty-child", [], None), ("fixed1@empty-child", ["a"], None), ("fixed1@binding-child", ["a"], None),
+                              # bodies WITHOUT internal definitions (a fast path may tell them apart): whatever binds a parameter — a rest
+                              # parameter alone included — binds it in a frame of the call's own.  (A parameterless procedure without
+                              # definitions binds nothing: whether it gets a frame cannot be observed, so there is no such row.)
+                              ("rest-only!nodefs", [], "r"), ("fixed1!nodefs", ["a"], None), ("rest!nodefs", ["a"], "r")):
+        for k in (range(0, 4) if kind in ("fixed2", "rest", "thunk") else (2,) if "+" in kind else (len(fixed),) if "@" in kind else
+                  (len(fixed), len(fixed) + 2) if ("!" in kind and rest is not None) else (len(fixed),) if "!" in kind else range(0, 6)):
             cenv = Frame(None, "closure-env")
             if "@" in kind:
                 outer = Frame(None, "outer-env")
@@ -422,7 +427,7 @@ def application_table(w):
                     cenv.defs.d["inner-name"] = ("inner-name", Tok("value-of", "inner-value"))
             caller = Frame(None, "caller-env")
             d_marker, b1, b2 = w.sym("D"), w.sym("B1"), w.sym("B2")
-            defs_ = [("d", d_marker)]
+            defs_ = [("d", d_marker)] if "!" not in kind else []
             if "+" in kind:
                 # an internal definition whose value is a procedure (closed over the body frame): it stays bound in that frame after
                 # the body has produced its value — closures made in the body may outlive the call and look it up by name
@@ -1144,10 +1149,11 @@ def rule_application(ctx, rule, aspects):
                 checks.append((d["frame_parent_is_closure_env"], "the body frame is not a child of the environment the closure captured"))
                 checks.append((all(x[0] for x in got) and all(e[2] for e in d["evals"]),
                                "parameters / internal definitions / body forms do not all use the one fresh frame"))
+            nodefs = "!" in kind
             if "bind" in aspects:
                 names = [x[1] for x in got]
-                checks.append((names == [n for n, _ in exp] + ["d"], "the application binds %s, expected %s then the internal definition d" % (
-                    names, [n for n, _ in exp])))
+                checks.append((names == [n for n, _ in exp] + ([] if nodefs else ["d"]), "the application binds %s, expected %s%s" % (
+                    names, [n for n, _ in exp], "" if nodefs else " then the internal definition d")))
                 for (n, want), g in zip(exp, got):
                     if isinstance(want, list):
                         items = getattr(g[2], "items", None) if isinstance(g[2], Tok) else None
@@ -1162,9 +1168,10 @@ def rule_application(ctx, rule, aspects):
                                        "the rest parameter %s is bound to %r, expected the list of the remaining arguments" % (n, g[2])))
                     else:
                         checks.append((g[2] is want, "parameter %s is bound to %r, expected argument %r" % (n, g[2], want)))
-                checks.append((len(got) > len(exp) and isinstance(got[len(exp)][2], Tok) and got[len(exp)][2].tag == "D",
-                               "the internal definition is not bound to the value of its expression"))
-            if "order" in aspects:
+                if not nodefs:
+                    checks.append((len(got) > len(exp) and isinstance(got[len(exp)][2], Tok) and got[len(exp)][2].tag == "D",
+                                   "the internal definition is not bound to the value of its expression"))
+            if "order" in aspects and not nodefs:
                 order = [x for x in d["order"] if x[0] != "new_child"]
                 want_tail = [("eval", "D"), ("define", "d"), ("eval", "B1"), ("tail", "B2")]
                 checks.append((order[-4:] == want_tail and all(x[0] == "define" for x in order[:-4]),
